@@ -349,6 +349,8 @@ def judge_error(err, corrupted, n_lines):
 
 
 def run_case(case):
+    if case.get("kind") == "fuzz-input":
+        return run_fuzz_input(case)
     text, exp, corrupted, names, scene_id, pid = render(case)
     via = case["via"]
     if via == "open_alos2":
@@ -402,12 +404,72 @@ def cases(draw, via_weights=("summary",) * 9 + ("open_alos2",)):
     return case
 
 
+EXOTIC_SEPARATORS = set("\x0b\x0c\x1c\x1d\x1e\x85\u2028\u2029")
+
+
+def fuzz_parse_summary(data):
+    """three-valued differential oracle for parse_summary on arbitrary text; returns (discs, judged)"""
+    from ceos_alos2.summary import parse_summary
+
+    try:
+        text = data.decode("utf-8")
+    except UnicodeDecodeError:
+        return [], False
+    if any(c in EXOTIC_SEPARATORS for c in text) or "\r" in text.replace("\r\n", ""):
+        return [], False  # what a 'line' is is not documented for these separators
+    lines = text.replace("\r\n", "\n").split("\n")
+    if lines and lines[-1] == "":
+        lines.pop()
+    parsed = [ref_parse_line(line) for line in lines]
+    bad = [i for i, p in enumerate(parsed) if p is None]
+    result, err = harness.guard(parse_summary, text)
+    if bad:
+        if err is None:
+            return [harness.disc("malformed-accepted", "fuzz parse_summary", f"error group naming lines {bad[:5]}", "parsed")], True
+        return judge_error(err, {i: "fuzz" for i in bad}, None), True
+    if err is not None:
+        return [harness.disc("exception", "fuzz parse_summary", "parsed", harness.exc_text(err))], True
+    # all lines valid: compare unless duplicates / section case collisions make the merge ambiguous
+    want = {}
+    seen = set()
+    spellings = {}
+    for sec, key, value in parsed:
+        if (sec.lower(), key) in seen:
+            return [], False
+        seen.add((sec.lower(), key))
+        spellings.setdefault(sec.lower(), set()).add(sec)
+        want.setdefault(sec.lower(), {})[key] = value
+    if any(len(v) > 1 for v in spellings.values()):
+        return [], False
+    got = {k: dict(v) for k, v in result.items()}
+    if got != want:
+        return [harness.disc("entry-value", "fuzz parse_summary", want, got)], True
+    return [], True
+
+
+FUZZ_TARGETS = {"parse_summary": fuzz_parse_summary}
+
+
+def run_fuzz_input(case):
+    discs, _ = FUZZ_TARGETS[case["target"]](bytes.fromhex(case["data"]))
+    return discs
+
+
 def plan(tier):
     n = 1500 if tier == "quick" else 200000
-    return [{"kind": "hyp", "name": "summaries", "strategy": cases(), "examples": n}]
+    stages = [{"kind": "hyp", "name": "summaries", "strategy": cases(), "examples": n}]
+    if tier == "thorough":
+        seeds = [b'Odi_A="b"\nScs_SceneShift="0"\n', b'Pdi_L11ProductFileName01="VOL-X"\r\nAch_PRF_Check=""\r\n']
+        stages.append({"kind": "fuzz", "name": "atheris-parse_summary", "target": "parse_summary", "seconds": 300,
+                       "corpus": seeds, "shard_all": True, "max_len": 256, "dict": ['=\\"', '\\"', "_", "Odi_", "\\x0a", "\\x0d\\x0a"]})
+        stages.append({"kind": "fuzz", "name": "atheris-parse_summary-empty-corpus", "target": "parse_summary", "seconds": 120,
+                       "corpus": [], "max_len": 128})
+    return stages
 
 
 def classify(case):
+    if case.get("kind") == "fuzz-input":
+        return True, ["fuzz-finding"]
     text, exp, corrupted, *_ = render(case)
     labels = [f"via={case['via']}", "CRLF" if case["newline"] == "\r\n" else "LF"]
     if corrupted:
